@@ -1766,6 +1766,11 @@ def m_opt_filter(I, state, frame, bi, t, args, span):
     return res
 
 
+@model("std::vec::from_elem")
+def m_from_elem(I, state, frame, bi, t, args, span):
+    return [(coll(args[0] if args else TOP), state)]
+
+
 @model("std::option::Option::<T>::take", "std::mem::take", "std::mem::replace")
 def m_take(I, state, frame, bi, t, args, span):
     a = args[0]
